@@ -172,4 +172,92 @@ example : subnetsFromString (subnetsToString ((List.range 128).map (fun i => i %
 /-- non-vacuity: a concrete key; subnet is byte 4 mod 128 -/
 example : validatorTopicID [0x8c, 0x51, 0x34, 0xfe, 0xd3, 0x99] = [natDigits 83] := by decide +kernel
 
+
+/-! ## shared / changed subnets (what peer selection, discovery filtering and subscription updates read off two subnet vectors) -/
+
+/-- `SharedSubnets(a, b, maxLen)` lists, for EVERY pair of vectors and EVERY limit, only indices that exist in both
+    vectors and are set (non-zero) in both -/
+theorem C18_shared_sound (a b : List Nat) (maxLen : Int) :
+    ∀ k ∈ sharedSubnets a b maxLen, ∃ av bv, a[k]? = some av ∧ b[k]? = some bv ∧ av ≠ 0 ∧ bv ≠ 0 := by
+  intro k hk
+  unfold sharedSubnets at hk
+  simp only at hk
+  split at hk
+  · simp at hk
+  · obtain ⟨_, av, bv, h1, h2, h3, h4⟩ := sharedGo_mem a b 0 0 _ k hk
+    exact ⟨av, bv, by simpa using h1, by simpa using h2, h3, h4⟩
+
+/-- with a 128-entry own vector every shared subnet lies in the advertised range [0,128) -/
+theorem C18_shared_in_range (a b : List Nat) (maxLen : Int) (ha : a.length = Gen.commons_subnetsCount) :
+    ∀ k ∈ sharedSubnets a b maxLen, k < Gen.commons_subnetsCount := by
+  intro k hk
+  obtain ⟨av, _, h1, _⟩ := C18_shared_sound a b maxLen k hk
+  have : k < a.length := by
+    rcases Nat.lt_or_ge k a.length with h | h
+    · exact h
+    · rw [List.getElem?_eq_none h] at h1; cases h1
+  omega
+
+/-- the result is strictly increasing (no subnet listed twice) -/
+theorem C18_shared_sorted (a b : List Nat) (maxLen : Int) : (sharedSubnets a b maxLen).Pairwise (· < ·) := by
+  unfold sharedSubnets
+  simp only
+  split
+  · simp
+  · exact sharedGo_sorted a b 0 0 _
+
+/-- completeness: when `maxLen` is 0 (the "no limit" convention), negative, or at least the number of shared
+    subnets, EVERY index set on both sides is listed -/
+theorem C18_shared_complete (a b : List Nat) (maxLen : Int)
+    (hm : maxLen ≤ 0 ∨ (sharedCount a b : Int) ≤ maxLen)
+    (k av bv : Nat) (ha : a[k]? = some av) (hb : b[k]? = some bv) (h1 : av ≠ 0) (h2 : bv ≠ 0) :
+    k ∈ sharedSubnets a b maxLen := by
+  unfold sharedSubnets
+  simp only
+  have hane : a ≠ [] := by intro e; subst e; simp at ha
+  have hbne : b ≠ [] := by intro e; subst e; simp at hb
+  have : (a.isEmpty || b.isEmpty) = false := by simp [hane, hbne]
+  rw [this]
+  simp only [Bool.false_eq_true, if_false]
+  have := sharedGo_complete a b 0 0
+    (if maxLen = 0 then some a.length else if maxLen < 0 then none else some maxLen.toNat)
+    (by
+      intro L hL
+      have hc := sharedCount_le a b
+      split at hL
+      · cases hL; omega
+      · split at hL
+        · cases hL
+        · cases hL; omega)
+    k av bv ha hb h1 h2
+  simpa using this
+
+/-- a positive limit is respected -/
+theorem C18_shared_limit (a b : List Nat) (maxLen : Int) (hm : 0 < maxLen) :
+    ((sharedSubnets a b maxLen).length : Int) ≤ maxLen := by
+  unfold sharedSubnets
+  simp only
+  split
+  · simp; omega
+  · have h0 : ¬ maxLen = 0 := by omega
+    have h1 : ¬ maxLen < 0 := by omega
+    simp only [h0, h1, if_false]
+    have := sharedGo_length a b 0 0 maxLen.toNat (by omega)
+    omega
+
+/-- `DiffSubnets(a, b)` holds EXACTLY the entries of `b` that `a` does not already have at that index
+    (changed, or beyond the end of `a`), each with `b`'s value, by increasing index without repetition -/
+theorem C18_diff_exact (a b : List Nat) (k v : Nat) :
+    (k, v) ∈ diffSubnets a b ↔ b[k]? = some v ∧ a[k]? ≠ some v := by
+  unfold diffSubnets
+  rw [diffGo_mem]; simp
+
+theorem C18_diff_sorted (a b : List Nat) : ((diffSubnets a b).map (·.1)).Pairwise (· < ·) :=
+  diffGo_sorted a b 0
+
+/-- non-vacuity / concrete evaluation: limit 0 = all, limit 1 = the first one, short peer vector cuts the scan -/
+example : sharedSubnets [1,0,1,1,0,7] [1,1,0,1,0,1] 0 = [0,3,5] ∧ sharedSubnets [1,0,1,1,0,7] [1,1,0,1,0,1] 1 = [0] ∧
+    sharedSubnets [1,0,1,1,0,7] [1,1,0,1] 0 = [0,3] ∧ sharedSubnets [1,0,1,1,0,7] [1,1,0,1,0,1] (-1) = [0,3,5] ∧
+    diffSubnets [1,0,1] [1,1,1,0] = [(1,1),(3,0)] ∧ active [1,0,3,0] = 2 := by decide
+
 end Ssv.Topics
